@@ -186,7 +186,7 @@ theorem random_split_eq (isField : Bool) (s : List Int) (t m : Int) (stream : Li
   have hp0 : 0 < (p : Int) := by exact_mod_cast hp.out.pos
   have hN : 0 < s.length := List.length_pos_iff.2 hs
   unfold ThreshaMirror.random_split
-  simp only []
+  simp -iota only []
   have hg : pyIdxOk s.length 0 = true := by
     simp [pyIdxOk]; omega
   rw [hg, init_mat, if_neg (by decide)]
@@ -240,6 +240,7 @@ theorem random_split_eq (isField : Bool) (s : List Int) (t m : Int) (stream : Li
       = (stream, mat m.toNat s.length (fun _ _ => (0 : Int))) := by
     simp
   rw [e0] at key
+  simp -iota only [] at key
   rw [key]
   simp only []
   rw [randomSplit_eq_mat]
